@@ -260,7 +260,12 @@ where
                         take!(DateToken::Colon);
                         let m = take!(DateToken::Number(s, None), s);
                         if let Some(m) = parse_range(&m, 2, 0..=59) {
-                            out.offset = Some(s * (h * 3600 + m * 60));
+                            // Hours are not range checked here, so they may not fit.
+                            let seconds = h
+                                .checked_mul(3600)
+                                .and_then(|hs| hs.checked_add(m * 60))
+                                .ok_or_else(|| format!("Offset out of range: {}:{:02}", h, m))?;
+                            out.offset = Some(s * seconds);
                             Ok(())
                         } else {
                             Err(format!("Expected 2 digits after : in offset, got {}", m))
